@@ -424,8 +424,13 @@ func c15(c *Ctx) {
 					for _, el := range cl.Elts {
 						if kv, ok := el.(*ast.KeyValueExpr); ok {
 							if sel, ok := unparen(kv.Value).(*ast.SelectorExpr); ok && sel.Sel.Name == "produce" {
-								if tv, ok := info.Types[sel.X]; ok && typeIs(tv.Type, sdkMetric, "shutdownProducer") {
-									okProd = true
+								if tv, ok := info.Types[sel.X]; ok {
+									// the producer type that refuses to collect (resolved, so a renamed type is still recognised)
+									if sp := lookupType(mix.Pkg, "shutdownProducer"); sp != nil {
+										if nn := namedOf(tv.Type); nn != nil && nn.Obj() == sp.Obj() {
+											okProd = true
+										}
+									}
 								}
 							}
 						}
